@@ -64,4 +64,16 @@ PROPS = {
         'trusted_base': ['Score.parse readings of a score string (inverted, operator, value): assumed, B-score',
                          'floats are exact reals; round(x, 2) is an uninterpreted function (A-float)'],
     },
+    'C15': {
+        'sidecars': ['contracts/c15_io.py'],
+        'native': 'c15', 'ground': False,
+        'level': 'proof',
+        'explanation': 'Per-operation two-state contracts of append_output, clear_output, set_input, clear_input and the '
+                       'input() replacement (_input_tracker closure) verified from the real source; the history statement '
+                       'is their composition (DESIGN.md Appendix C) and is additionally exercised by the bounded stand-in '
+                       'B-io on a real Sandbox.',
+        'trusted_base': ['str.rstrip / str.split are uninterpreted functions (same symbol in code and specification)',
+                         'io.StringIO.getvalue is the concatenation of writes; _stop_mocking/_start_mocking composition: B-io',
+                         'print() appends one entry to the ghost sequence `printed`'],
+    },
 }
